@@ -3,9 +3,13 @@ package bcl
 import (
 	"fmt"
 	"sort"
+	"sync"
 )
 
+// lineCalc is written by the lexer goroutine (add) while the parser goroutine
+// reads it to format diagnostics (lineColAt); mu guards lfs.
 type lineCalc struct {
+	mu  sync.Mutex
 	lfs []int
 }
 
@@ -15,6 +19,9 @@ func newLineCalc() *lineCalc {
 }
 
 func (lc *lineCalc) add(s string, prefix int) {
+	lc.mu.Lock()
+	defer lc.mu.Unlock()
+
 	for i, c := range s {
 		if c == '\n' {
 			lc.lfs = append(lc.lfs, prefix+i)
@@ -25,6 +32,8 @@ func (lc *lineCalc) add(s string, prefix int) {
 // lineColAt gives (line, column) pair for a given position.
 // Note that pos starts at 0, while line and column start at 1.
 func (lc *lineCalc) lineColAt(pos int) (int, int) {
+	lc.mu.Lock()
+	defer lc.mu.Unlock()
 
 	j := sort.SearchInts(lc.lfs, pos)
 
